@@ -23,7 +23,8 @@
     remove = goneFlag   the `remove` case tests `m.el == nil` and sets `m.gone`     (the code as it is)
              unguarded  the original `all.Remove(m.el)` — a nil dereference when el is nil
     site   = outsideLock  enforcerDeliver / enforcerRemove are called after withMailbox returned (the code)
-             insideLock   enforcerDeliver inside the closure passed to withMailbox (holding the mailbox lock)
+             insideLock   a rendezvous inside the closure passed to withMailbox (holding the mailbox lock):
+                          enforcerDeliver of AddMessage, enforcerRemove of RemoveMessage
 -/
 namespace Ibx.Model.ConcMem
 
@@ -200,6 +201,10 @@ def todoOf (v : Variant) (c : Cfg) (o : Op) (r : Ret) (del : List Key) : List In
       match v.site with
       | .outsideLock => .unlock :: (del.map .rem ++ [.inc (b, i)])
       | .insideLock => .inc (b, i) :: .unlock :: del.map .rem
+    | .remove _ _, _ =>
+      match v.site with
+      | .outsideLock => .unlock :: del.map .rem
+      | .insideLock => del.map .rem ++ [.unlock]
     | _, _ => .unlock :: del.map .rem
 
 def newSize (o : Op) (r : Ret) (size : Key → Nat) : Key → Nat :=
